@@ -5,7 +5,10 @@
 // executed on the real BuildBlocks / NextRotateSwitchBlock /
 // TransformToReturnBlock with guard bytes around the block. Stage T: paths
 // drawn by the Go PRNG are run on the real code and the recorded calls are
-// validated by SwitchLabel_Trace.
+// validated by SwitchLabel_Trace. Further histories feeding the same trace
+// specification: routing table entries (tableRoutes), frames of several paths
+// through one switch handler at once (switchconc.go), whole paths through
+// running switch workers of routers in every mode (switchpath.go).
 package main
 
 import (
@@ -347,9 +350,10 @@ func specSize(f, r []int) int {
 func main() { vf.Main("C12", "model_checking", run) }
 
 func run(c *vf.Ctx) {
-	c.Rule("M: TLC exhaustive over all label-class vectors (low and high representatives of {1..127 | 128..16383 | 16384..65535}) for 2..5 hops (thorough: ..6, plus both representatives mixed to 4 hops), checking label order, bounds, exact reversal, size sufficient and minimal. R: every transition of the dumped graphs and TLC -simulate walks with random 16-bit labels for 7..40 and 41..101 hops executed on the real code inside guard bytes. T: Go-PRNG paths run on the real code, calls validated by SwitchLabel_Trace. distinct = distinct (hop count, label size-class vector) of executed paths")
+	c.Rule("M: TLC exhaustive over all label-class vectors (low and high representatives of {1..127 | 128..16383 | 16384..65535}) for 2..5 hops (thorough: ..6, plus both representatives mixed to 4 hops), checking label order, bounds, exact reversal, size sufficient and minimal. R: every transition of the dumped graphs and TLC -simulate walks with random 16-bit labels for 7..40 and 41..101 hops executed on the real code inside guard bytes. T: Go-PRNG paths run on the real code, calls validated by SwitchLabel_Trace; whole paths travelled there and back by real frames through RUNNING switch workers of routers in normal / stub / lite / stub+lite mode (meshes with several links per router, long chains), every hop a rotate event, what the far end's upper layer holds an arrive and a reverse event. distinct = distinct (hop count, label size-class vector) of executed paths")
 	c.Assume("labels are uint16 (encodable in <= 3 varint bytes), paths are well formed (first return label and last forward label are 0)")
 
+	spInstallLogSink() // before the first router stack exists: what running switches log is kept (stage "switched paths")
 	drift := 0
 	// ---- M ----
 	mcs := []string{"SwitchLabel_MC.cfg", "SwitchLabel_MCHi.cfg"}
@@ -582,6 +586,7 @@ func run(c *vf.Ctx) {
 		c.Violation(vf.Key("trace", ev["ev"]), fmt.Sprintf("recorded call %v is not explained by the protocol operators of SwitchLabel (trace line %d)", ev, rejectAt), ev, nil)
 	}
 	c.Logf("T: %d events validated", len(events))
+	switchedPaths(c, rng)
 	suite(c)
 }
 
